@@ -18,8 +18,8 @@ import traceback
 
 HERE = os.path.dirname(os.path.dirname(os.path.abspath(__file__)))
 REPO = os.environ.get('SX_REPO', '/repo')
-EVID = os.path.join(HERE, 'evidence')
-REPLAYS = os.path.join(HERE, 'replays')
+EVID = os.environ.get('SX_EVID') or os.path.join(HERE, 'evidence')
+REPLAYS = os.environ.get('SX_REPLAYS') or os.path.join(HERE, 'replays')
 
 _W = {}
 
